@@ -33,18 +33,26 @@ RULE = ("formula: random n-ary and/or tree (norm: <=12 leaves, depth<=5, <=6 dis
         "e2e sequences over the atoms' events plus one irrelevant event, length<=6: permutations, random with repeats, "
         "prefix-of-satisfying; thorough additionally enumerates ALL and/or trees with <=3 leaves over <=3 atoms x ALL "
         "sequences of length<=4 over atoms+irrelevant (match), and all arrival orders (up to 720) of the atoms+irrelevant for 96 sampled formulas, all trees <=2 leaves x all sequences <=4 with failure events (awaitf/whenf), all trees <=3 leaves x all sequences <=3 (await/when). "
-        "non-trivial = formula mixes and/or or has >=3 leaves, and (e2e) some sequence completes the group after its first event; "
+        "expand: also whole `when` statements (1-3 cases, optional else, events and flows mixed); e2e ops with failing flows (awaitf/whenf/whenfe) compare marker, failure path and "
+        "running child flows after every event with the flow-level machine; ctx: group statements in context (templates loop / loop2 / seq2 / whenbody / nestwhen / subgroup, every third "
+        "round with failing flows and else branches), sequences <=9 with several rounds of all atoms; thorough: every tree <=2 leaves re-entered in a loop x all sequences <=5 (match/await/when), "
+        "trees with 3 leaves x all sequences <=4 (match). "
+        "non-trivial = formula mixes and/or or has >=3 leaves, and (e2e) some sequence completes the group after its first event, (ctx) some sequence produces >=2 markers; "
         "distinct = distinct case JSON.")
 TRUSTED_BASE = [
     "correspondence harness harness/props/C07.py + Lean driver Drive/C07.lean (JSON codecs; names canonicalised by first appearance)",
     "the repo's Colang 2.x parser (used to build the group dicts from source text; the intended formula is compared with the parsed one)",
-    "abstraction step: Dnf.markers models the fork/merge/wait head protocol as 'one head per atom per and-clause'; that the real "
-    "interpreter behaves like it is checked by execution (e2e correspondence) and structurally (readBack of the real element list), not proved",
+    "abstraction step: Dnf.markers models the fork/merge/wait head protocol as 'one head per atom per and-clause'; GroupVM refines it (proved); that the real "
+    "interpreter behaves like GroupVM is proved for phase 1 over the interpreter model CoreVM (clause segments) and otherwise checked by execution (heads of the real flow = GroupVM = CoreVM "
+    "after every event) and structurally (readBack of the real element lists)",
+    "GroupFlow (await/when over flows: child instances, Finished/Failed, failure path, clean-up) abstracts StartFlow/FlowFinished/FlowFailed/scopes; checked by execution after every event",
+    "harness/translate/c07ctx.py: the sequencing of group statements in context (shared by oracle and model comparison; the first-satisfaction function differs)",
 ]
 ASSUMPTIONS = [
     "atoms are parameterless events `E<i>()` / flows `f<i>` (flow f<i> = `match E<i>()`), distinct index = distinct event; argument matching is C04",
     "after the group the program parks on `match Never()` so that the restarting main flow cannot produce a second marker",
-    "modelled by hand: normalize_element_groups, flatten_or_group, the group branches of _expand_match_element",
+    "modelled by hand: normalize_element_groups, flatten_or_group, the group branches of _expand_match_element / _expand_await_element, _expand_when_stmt_element",
+    "sub-flows f<i> finish on E<i> and (failing ops) fail on F<i>; all running instances of one flow react to the same event",
 ]
 EXHAUSTIVE = {"quick": False, "thorough": True}
 
